@@ -2,6 +2,8 @@
   C14 — Merge routes every id to the one dataset that owns it.
   Property theorems about CM.Model.Rel (tied to /repo by the S-REL correspondence).
 -/
+import CM.Proofs.SwitchDen
+import CM.Model.Merge
 import CM.Proofs.RelLemmas
 namespace CM.C14
 open CM
@@ -90,5 +92,23 @@ example :
                  (match m.value "x" "b1" with | .ok (.app f _ _ _) => f == "B.x" | _ => false) &&
                  (match m.value "x" "zz" with | .error .valueError => true | _ => false)
       | .error _ => false) = true := by decide +kernel
+
+/-! ## Node level: the `SwitchEdge` of `Merge._merge_containers` (`CM.Model.Merge`, compared with the real container in S-FACTORY) -/
+
+/-- **A merged field is its owner's field**: if the key evaluates to `v` and the routing table sends `v` to branch `idx`, the node
+the Merge creates for the field has the node hash of that branch (so caches are shared with the unmerged dataset) and its value,
+for every input, whatever the other branches are. -/
+theorem node_switch_is_owner (d : DenCfg) (table : List (Val × Nat)) (key : BTerm) (branches : List BTerm) (v : Val) (idx : Nat)
+    (tb : BTerm) (hk : (key.den d).v = .ok v) (hl : tableLookup table v = some idx) (hb : branches[idx]? = some tb) :
+    ((BTerm.node (.switch table) (key :: branches)).den d).h.map (·.1) = (tb.den d).h.map (·.1) ∧
+    (∀ hh, (tb.den d).h = .ok hh → ((BTerm.node (.switch table) (key :: branches)).den d).v = (tb.den d).v) :=
+  switch_den d table key branches v idx tb hk hl hb
+
+/-- an id no dataset owns is rejected with `ValueError`, never resolved arbitrarily -/
+theorem node_switch_unknown (d : DenCfg) (table : List (Val × Nat)) (key : BTerm) (branches : List BTerm) (v : Val)
+    (hk : (key.den d).v = .ok v) (hl : tableLookup table v = none) :
+    ((BTerm.node (.switch table) (key :: branches)).den d).h = .error .valueError ∧
+    ((BTerm.node (.switch table) (key :: branches)).den d).v = .error .valueError :=
+  switch_unknown d table key branches v hk hl
 
 end CM.C14
